@@ -746,6 +746,27 @@ func genConvertScenario(c *gctx) {
 		return
 	}
 	t := c.ty()
+	if r.chance(10) {
+		// the converter comes from a generator; a generator that declines everything is asked first
+		src := c.cty()
+		tt := t
+		if cc, ok := carrier[t]; ok {
+			tt = cc
+		}
+		if src != tt {
+			fi := c.addFunc([]Field{{Ty: src}}, []Field{{Ty: tt}}, FPos, FPos)
+			c.sc.Funcs[fi].Once = false
+			c.sc.Gens = append(c.sc.Gens, &GenDecl{ID: 2}, &GenDecl{ID: 1, Rows: []GenRow{{Key: vkeyT{Kind: 4, Ty: src}, Res: 2, Fn: fi}}})
+			opts := []Opt{{Kind: "typed", Vals: []*Val{c.val(src)}}}
+			if r.chance(50) {
+				opts = append(opts, Opt{Kind: "gen", Gens: []int{0, 1}})
+			} else {
+				opts = append(opts, Opt{Kind: "gen", Gens: []int{0}}, Opt{Kind: "gen", Gens: []int{1}})
+			}
+			c.sc.Ops = append(c.sc.Ops, Op{Kind: "convert", Ty: t, Opts: opts})
+			return
+		}
+	}
 	if r.chance(8) {
 		// the interface type error as target: func(error) error has no output,
 		// only an error result -- a resolvable conversion fails with the injected value
